@@ -1,6 +1,14 @@
 (* C04 over the language-chain pass models: which passes are total, and for the others the
    decidable condition under which they neither panic nor exhaust the stack, with witnesses of
-   the crash outside it.  (Model: Go panic = Panic, unbounded recursion = OutOfFuel.) *)
+   the crash outside it.  (Model: Go panic = Panic, unbounded recursion = OutOfFuel.)
+   WHAT IS HERE
+   - Section Outcome: outcome classes W closed under bind (is_ok', ok_or_err') through mapM, visit_disj (vis_all),
+     visit_schema, visit_schema_st, visit_schemas_disj0;
+   - total_chain_passes, dwctd_total, doaste_total (always Ok);
+   - dwnto_no_panic (no `null | null`), prefix_enum_values_no_panic, sanitize_no_panic with the per-member EXACT
+     conditions pev_member_exact / senm_member_exact;
+   - flatten_no_crash, undiscriminated_no_crash, dtt_no_crash under unions_resolve (reference cycles overflow:
+     reference_cycle_overflows); dataquery_identification_no_panic; a witness for every excluded crash. *)
 From Coq Require Import List String Bool Ascii Lia.
 From Cog Require Import Model.IR Model.Names Model.Passes Model.PassesChain Model.Process Model.NF
      Proofs.TyInd Proofs.ChainLemmas Proofs.PassLemmas.
